@@ -35,80 +35,80 @@
 (assert
  (= (srunes str_0) 0))
 (assert
- (let ((?x845 (slen str_1)))
- (= ?x845 6)))
+ (let ((?x14664 (slen str_1)))
+ (= ?x14664 6)))
 (assert
- (let ((?x891 (srunes str_1)))
- (= ?x891 6)))
+ (let ((?x14681 (srunes str_1)))
+ (= ?x14681 6)))
 (assert
- (let ((?x957 (slen str_2)))
- (= ?x957 7)))
+ (let ((?x14662 (slen str_2)))
+ (= ?x14662 7)))
 (assert
- (let ((?x958 (srunes str_2)))
- (= ?x958 7)))
+ (let ((?x14571 (srunes str_2)))
+ (= ?x14571 7)))
 (assert
- (forall ((r!wt Int) )(! (let ((?x3944 (select |H\|interpreter.argsParser\|args#arr\|Int@0| r!wt)))
- (let (($x3415 (>= ?x3944 0)))
- (and $x3415 (< ?x3944 alloc@0)))) :pattern ( (select |H\|interpreter.argsParser\|args#arr\|Int@0| r!wt) )))
+ (forall ((r!wt Int) )(! (let ((?x17420 (select |H\|interpreter.argsParser\|args#arr\|Int@0| r!wt)))
+ (let (($x2955 (>= ?x17420 0)))
+ (and $x2955 (< ?x17420 alloc@0)))) :pattern ( (select |H\|interpreter.argsParser\|args#arr\|Int@0| r!wt) ) :qid q_r_wt_H_interpreter.argsParser_args_arr_Int_0))
  )
 (assert
- (forall ((r!wt Int) (k!wt Str) )(! (let ((?x3942 (select (select |MV\|map[string][]string\|#arr\|Int@0| r!wt) k!wt)))
- (let (($x1329 (>= ?x3942 0)))
- (and $x1329 (< ?x3942 alloc@0)))) :pattern ( (select (select |MV\|map[string][]string\|#arr\|Int@0| r!wt) k!wt) )))
+ (forall ((r!wt Int) (k!wt Str) )(! (let ((?x17182 (select (select |MV\|map[string][]string\|#arr\|Int@0| r!wt) k!wt)))
+ (let (($x6960 (>= ?x17182 0)))
+ (and $x6960 (< ?x17182 alloc@0)))) :pattern ( (select (select |MV\|map[string][]string\|#arr\|Int@0| r!wt) k!wt) ) :qid q_r_wt_MV_map_string___string__arr_Int_0))
  )
 (assert
- (forall ((r!wt Int) (k!wt Str) )(! (let ((?x3961 (select (select |MV\|map[string]map[string]string\|\|Int@0| r!wt) k!wt)))
- (let (($x3864 (>= ?x3961 0)))
- (and $x3864 (< ?x3961 alloc@0)))) :pattern ( (select (select |MV\|map[string]map[string]string\|\|Int@0| r!wt) k!wt) )))
+ (forall ((r!wt Int) (k!wt Str) )(! (let ((?x74395 (select (select |MV\|map[string]map[string]string\|\|Int@0| r!wt) k!wt)))
+ (let (($x16099 (>= ?x74395 0)))
+ (and $x16099 (< ?x74395 alloc@0)))) :pattern ( (select (select |MV\|map[string]map[string]string\|\|Int@0| r!wt) k!wt) ) :qid q_r_wt_MV_map_string_map_string_string__Int_0))
  )
 (assert
- (forall ((r!wt Int) )(! (let ((?x3584 (select |H\|interpreter.programState\|CachedAccountsMeta\|Int@0| r!wt)))
- (let (($x3196 (>= ?x3584 0)))
- (and $x3196 (< ?x3584 alloc@0)))) :pattern ( (select |H\|interpreter.programState\|CachedAccountsMeta\|Int@0| r!wt) )))
+ (forall ((r!wt Int) )(! (let ((?x12627 (select |H\|interpreter.programState\|CachedAccountsMeta\|Int@0| r!wt)))
+ (let (($x11794 (>= ?x12627 0)))
+ (and $x11794 (< ?x12627 alloc@0)))) :pattern ( (select |H\|interpreter.programState\|CachedAccountsMeta\|Int@0| r!wt) ) :qid q_r_wt_H_interpreter.programState_CachedAccountsMeta_Int_0))
  )
 (assert
  (>= alloc@0 1))
 (assert
- (let (($x12 (>= in_s 0)))
- (and $x12 (< in_s alloc@0))))
+ (let (($x8073 (>= in_s 0)))
+ (and $x8073 (< in_s alloc@0))))
 (assert
- (let (($x2391 (<= in_rng 9223372036854775807)))
- (let (($x2734 (>= in_rng (- 9223372036854775808))))
- (and $x2734 $x2391))))
+ (let (($x60926 (<= in_rng 9223372036854775807)))
+ (let (($x8284 (>= in_rng (- 9223372036854775808))))
+ (and $x8284 $x60926))))
 (assert
- (let (($x4675 (<= in_rng_1 9223372036854775807)))
- (let (($x17761 (>= in_rng_1 (- 9223372036854775808))))
- (and $x17761 $x4675))))
+ (let (($x24787 (<= in_rng_1 9223372036854775807)))
+ (let (($x1073 (>= in_rng_1 (- 9223372036854775808))))
+ (and $x1073 $x24787))))
 (assert
- (let (($x3122 (<= in_rng_2 9223372036854775807)))
- (let (($x3056 (>= in_rng_2 (- 9223372036854775808))))
- (and $x3056 $x3122))))
+ (let (($x21296 (<= in_rng_2 9223372036854775807)))
+ (let (($x38623 (>= in_rng_2 (- 9223372036854775808))))
+ (and $x38623 $x21296))))
 (assert
- (let (($x3250 (<= in_rng_3 9223372036854775807)))
- (let (($x4312 (>= in_rng_3 (- 9223372036854775808))))
- (and $x4312 $x3250))))
+ (let (($x28513 (<= in_rng_3 9223372036854775807)))
+ (let (($x41845 (>= in_rng_3 (- 9223372036854775808))))
+ (and $x41845 $x28513))))
 (assert
- (let (($x4098 (= in_args_2 0)))
- (let (($x41319 (= in_args 0)))
- (=> $x41319 $x4098))))
+ (let (($x20977 (= in_args_2 0)))
+ (let (($x3665 (= in_args 0)))
+ (=> $x3665 $x20977))))
 (assert
- (let (($x2879 (>= in_args 0)))
- (and $x2879 (< in_args alloc@0))))
+ (let (($x513 (>= in_args 0)))
+ (and $x513 (< in_args alloc@0))))
 (assert
  (>= 0 0))
 (assert
  (>= in_args_2 0))
 (assert
- (let (($x862 (not (= (select |H\|interpreter.programState\|Store\|Any@0| in_s) nil))))
- (let (($x18 (not (= in_s 0))))
- (and $x18 $x862))))
+ (let (($x7621 (not (= (select |H\|interpreter.programState\|Store\|Any@0| in_s) nil))))
+ (let (($x6301 (not (= in_s 0))))
+ (and $x6301 $x7621))))
 (assert
- (forall ((i!b Int) )(let ((?x1180 (select |A\|interface{String() string; value()}\|\|Any@0| in_args)))
- (let ((?x3272 (select ?x1180 i!b)))
- (let (($x34202 ((_ is mk170 ) ?x3272)))
- (let (($x3364 ((_ is mk171 ) ?x3272)))
- (let (($x1393 (or (or (or (or (or ((_ is mk179 ) ?x3272) ((_ is mk155 ) ?x3272)) ((_ is mk154 ) ?x3272)) ((_ is mk174 ) ?x3272)) $x3364) $x34202)))
- (=> (and (<= 0 i!b) (< i!b in_args_2)) $x1393)))))))
+ (forall ((i!b Int) )(! (let ((?x3582 (select |A\|interface{String() string; value()}\|\|Any@0| in_args)))
+ (let ((?x88927 (select ?x3582 i!b)))
+ (let (($x40339 ((_ is mk170 ) ?x88927)))
+ (let (($x75528 ((_ is mk171 ) ?x88927)))
+ (let (($x8287 (or (or (or (or (or ((_ is mk179 ) ?x88927) ((_ is mk155 ) ?x88927)) ((_ is mk154 ) ?x88927)) ((_ is mk174 ) ?x88927)) $x75528) $x40339)))
+ (=> (and (<= 0 i!b) (< i!b in_args_2)) $x8287)))))) :qid q_i_b_nopat))
  )
 (assert
  (not (= alloc@0 0)))
@@ -135,58 +135,58 @@
 (assert
  (not (= alloc@0 0)))
 (assert
- (let ((?x4783 (store (store |H\|interpreter.argsParser\|args#len\|Int@0| alloc@0 0) alloc@0 in_args_2)))
- (let ((?x1040 (select ?x4783 alloc@0)))
- (let ((?x13517 (store (store |H\|interpreter.argsParser\|args#arr\|Int@0| alloc@0 0) alloc@0 in_args)))
- (let ((?x3734 (select ?x13517 alloc@0)))
- (=> (= ?x3734 0) (= ?x1040 0)))))))
+ (let ((?x15962 (store (store |H\|interpreter.argsParser\|args#len\|Int@0| alloc@0 0) alloc@0 in_args_2)))
+ (let ((?x11814 (select ?x15962 alloc@0)))
+ (let ((?x80603 (store (store |H\|interpreter.argsParser\|args#arr\|Int@0| alloc@0 0) alloc@0 in_args)))
+ (let ((?x16366 (select ?x80603 alloc@0)))
+ (=> (= ?x16366 0) (= ?x11814 0)))))))
 (assert
- (let ((?x231 (+ alloc@0 1)))
- (let ((?x13517 (store (store |H\|interpreter.argsParser\|args#arr\|Int@0| alloc@0 0) alloc@0 in_args)))
- (let ((?x3734 (select ?x13517 alloc@0)))
- (let (($x3396 (>= ?x3734 0)))
- (and $x3396 (< ?x3734 ?x231)))))))
+ (let ((?x5343 (+ alloc@0 1)))
+ (let ((?x80603 (store (store |H\|interpreter.argsParser\|args#arr\|Int@0| alloc@0 0) alloc@0 in_args)))
+ (let ((?x16366 (select ?x80603 alloc@0)))
+ (let (($x36007 (>= ?x16366 0)))
+ (and $x36007 (< ?x16366 ?x5343)))))))
 (assert
  (>= 0 0))
 (assert
- (let ((?x4783 (store (store |H\|interpreter.argsParser\|args#len\|Int@0| alloc@0 0) alloc@0 in_args_2)))
- (let ((?x1040 (select ?x4783 alloc@0)))
- (>= ?x1040 0))))
+ (let ((?x15962 (store (store |H\|interpreter.argsParser\|args#len\|Int@0| alloc@0 0) alloc@0 in_args_2)))
+ (let ((?x11814 (select ?x15962 alloc@0)))
+ (>= ?x11814 0))))
 (assert
- (let (($x12236 (>= 0 in_args_2)))
- (not $x12236)))
+ (let (($x11723 (>= 0 in_args_2)))
+ (not $x11723)))
 (assert
  (not (= alloc@0 0)))
 (assert
  (not (= alloc@0 0)))
 (assert
- (let ((?x4783 (store (store |H\|interpreter.argsParser\|args#len\|Int@0| alloc@0 0) alloc@0 in_args_2)))
- (let ((?x1040 (select ?x4783 alloc@0)))
- (let ((?x13517 (store (store |H\|interpreter.argsParser\|args#arr\|Int@0| alloc@0 0) alloc@0 in_args)))
- (let ((?x3734 (select ?x13517 alloc@0)))
- (=> (= ?x3734 0) (= ?x1040 0)))))))
+ (let ((?x15962 (store (store |H\|interpreter.argsParser\|args#len\|Int@0| alloc@0 0) alloc@0 in_args_2)))
+ (let ((?x11814 (select ?x15962 alloc@0)))
+ (let ((?x80603 (store (store |H\|interpreter.argsParser\|args#arr\|Int@0| alloc@0 0) alloc@0 in_args)))
+ (let ((?x16366 (select ?x80603 alloc@0)))
+ (=> (= ?x16366 0) (= ?x11814 0)))))))
 (assert
- (let ((?x231 (+ alloc@0 1)))
- (let ((?x13517 (store (store |H\|interpreter.argsParser\|args#arr\|Int@0| alloc@0 0) alloc@0 in_args)))
- (let ((?x3734 (select ?x13517 alloc@0)))
- (let (($x3396 (>= ?x3734 0)))
- (and $x3396 (< ?x3734 ?x231)))))))
+ (let ((?x5343 (+ alloc@0 1)))
+ (let ((?x80603 (store (store |H\|interpreter.argsParser\|args#arr\|Int@0| alloc@0 0) alloc@0 in_args)))
+ (let ((?x16366 (select ?x80603 alloc@0)))
+ (let (($x36007 (>= ?x16366 0)))
+ (and $x36007 (< ?x16366 ?x5343)))))))
 (assert
  (>= 0 0))
 (assert
- (let ((?x4783 (store (store |H\|interpreter.argsParser\|args#len\|Int@0| alloc@0 0) alloc@0 in_args_2)))
- (let ((?x1040 (select ?x4783 alloc@0)))
- (>= ?x1040 0))))
+ (let ((?x15962 (store (store |H\|interpreter.argsParser\|args#len\|Int@0| alloc@0 0) alloc@0 in_args_2)))
+ (let ((?x11814 (select ?x15962 alloc@0)))
+ (>= ?x11814 0))))
 (assert
- (let ((?x4783 (store (store |H\|interpreter.argsParser\|args#len\|Int@0| alloc@0 0) alloc@0 in_args_2)))
- (let ((?x1040 (select ?x4783 alloc@0)))
- (let ((?x3412 (store |H\|interpreter.argsParser\|parsedArgsCount\|Int@0| alloc@0 0)))
- (let ((?x1078 (select ?x3412 alloc@0)))
- (and (>= ?x1078 0) (< ?x1078 ?x1040)))))))
+ (let ((?x15962 (store (store |H\|interpreter.argsParser\|args#len\|Int@0| alloc@0 0) alloc@0 in_args_2)))
+ (let ((?x11814 (select ?x15962 alloc@0)))
+ (let ((?x32683 (store |H\|interpreter.argsParser\|parsedArgsCount\|Int@0| alloc@0 0)))
+ (let ((?x41067 (select ?x32683 alloc@0)))
+ (and (>= ?x41067 0) (< ?x41067 ?x11814)))))))
 (assert
- (let ((?x1180 (select |A\|interface{String() string; value()}\|\|Any@0| in_args)))
- (let ((?x34201 (select ?x1180 0)))
- ((_ is mk154 ) ?x34201))))
+ (let ((?x3582 (select |A\|interface{String() string; value()}\|\|Any@0| in_args)))
+ (let ((?x65638 (select ?x3582 0)))
+ ((_ is mk154 ) ?x65638))))
 (assert
  (not (= alloc@0 (- 1))))
 (assert
@@ -210,62 +210,62 @@
 (assert
  (not (= alloc@0 0)))
 (assert
- (let ((?x4783 (store (store |H\|interpreter.argsParser\|args#len\|Int@0| alloc@0 0) alloc@0 in_args_2)))
- (let ((?x1040 (select ?x4783 alloc@0)))
- (let ((?x13517 (store (store |H\|interpreter.argsParser\|args#arr\|Int@0| alloc@0 0) alloc@0 in_args)))
- (let ((?x3734 (select ?x13517 alloc@0)))
- (=> (= ?x3734 0) (= ?x1040 0)))))))
+ (let ((?x15962 (store (store |H\|interpreter.argsParser\|args#len\|Int@0| alloc@0 0) alloc@0 in_args_2)))
+ (let ((?x11814 (select ?x15962 alloc@0)))
+ (let ((?x80603 (store (store |H\|interpreter.argsParser\|args#arr\|Int@0| alloc@0 0) alloc@0 in_args)))
+ (let ((?x16366 (select ?x80603 alloc@0)))
+ (=> (= ?x16366 0) (= ?x11814 0)))))))
 (assert
- (let ((?x231 (+ alloc@0 1)))
- (let ((?x386 (+ ?x231 1)))
- (let ((?x13517 (store (store |H\|interpreter.argsParser\|args#arr\|Int@0| alloc@0 0) alloc@0 in_args)))
- (let ((?x3734 (select ?x13517 alloc@0)))
- (let (($x3396 (>= ?x3734 0)))
- (and $x3396 (< ?x3734 ?x386))))))))
+ (let ((?x5343 (+ alloc@0 1)))
+ (let ((?x5372 (+ ?x5343 1)))
+ (let ((?x80603 (store (store |H\|interpreter.argsParser\|args#arr\|Int@0| alloc@0 0) alloc@0 in_args)))
+ (let ((?x16366 (select ?x80603 alloc@0)))
+ (let (($x36007 (>= ?x16366 0)))
+ (and $x36007 (< ?x16366 ?x5372))))))))
 (assert
  (>= 0 0))
 (assert
- (let ((?x4783 (store (store |H\|interpreter.argsParser\|args#len\|Int@0| alloc@0 0) alloc@0 in_args_2)))
- (let ((?x1040 (select ?x4783 alloc@0)))
- (>= ?x1040 0))))
+ (let ((?x15962 (store (store |H\|interpreter.argsParser\|args#len\|Int@0| alloc@0 0) alloc@0 in_args_2)))
+ (let ((?x11814 (select ?x15962 alloc@0)))
+ (>= ?x11814 0))))
 (assert
- (let (($x4768 (>= 1 in_args_2)))
- (not $x4768)))
+ (let (($x12185 (>= 1 in_args_2)))
+ (not $x12185)))
 (assert
  (not (= alloc@0 0)))
 (assert
  (not (= alloc@0 0)))
 (assert
- (let ((?x4783 (store (store |H\|interpreter.argsParser\|args#len\|Int@0| alloc@0 0) alloc@0 in_args_2)))
- (let ((?x1040 (select ?x4783 alloc@0)))
- (let ((?x13517 (store (store |H\|interpreter.argsParser\|args#arr\|Int@0| alloc@0 0) alloc@0 in_args)))
- (let ((?x3734 (select ?x13517 alloc@0)))
- (=> (= ?x3734 0) (= ?x1040 0)))))))
+ (let ((?x15962 (store (store |H\|interpreter.argsParser\|args#len\|Int@0| alloc@0 0) alloc@0 in_args_2)))
+ (let ((?x11814 (select ?x15962 alloc@0)))
+ (let ((?x80603 (store (store |H\|interpreter.argsParser\|args#arr\|Int@0| alloc@0 0) alloc@0 in_args)))
+ (let ((?x16366 (select ?x80603 alloc@0)))
+ (=> (= ?x16366 0) (= ?x11814 0)))))))
 (assert
- (let ((?x231 (+ alloc@0 1)))
- (let ((?x386 (+ ?x231 1)))
- (let ((?x13517 (store (store |H\|interpreter.argsParser\|args#arr\|Int@0| alloc@0 0) alloc@0 in_args)))
- (let ((?x3734 (select ?x13517 alloc@0)))
- (let (($x3396 (>= ?x3734 0)))
- (and $x3396 (< ?x3734 ?x386))))))))
+ (let ((?x5343 (+ alloc@0 1)))
+ (let ((?x5372 (+ ?x5343 1)))
+ (let ((?x80603 (store (store |H\|interpreter.argsParser\|args#arr\|Int@0| alloc@0 0) alloc@0 in_args)))
+ (let ((?x16366 (select ?x80603 alloc@0)))
+ (let (($x36007 (>= ?x16366 0)))
+ (and $x36007 (< ?x16366 ?x5372))))))))
 (assert
  (>= 0 0))
 (assert
- (let ((?x4783 (store (store |H\|interpreter.argsParser\|args#len\|Int@0| alloc@0 0) alloc@0 in_args_2)))
- (let ((?x1040 (select ?x4783 alloc@0)))
- (>= ?x1040 0))))
+ (let ((?x15962 (store (store |H\|interpreter.argsParser\|args#len\|Int@0| alloc@0 0) alloc@0 in_args_2)))
+ (let ((?x11814 (select ?x15962 alloc@0)))
+ (>= ?x11814 0))))
 (assert
- (let ((?x4783 (store (store |H\|interpreter.argsParser\|args#len\|Int@0| alloc@0 0) alloc@0 in_args_2)))
- (let ((?x1040 (select ?x4783 alloc@0)))
- (let ((?x3412 (store |H\|interpreter.argsParser\|parsedArgsCount\|Int@0| alloc@0 0)))
- (let ((?x1078 (select ?x3412 alloc@0)))
- (let ((?x3475 (store ?x3412 alloc@0 (+ ?x1078 1))))
- (let ((?x3962 (select ?x3475 alloc@0)))
- (and (>= ?x3962 0) (< ?x3962 ?x1040)))))))))
+ (let ((?x15962 (store (store |H\|interpreter.argsParser\|args#len\|Int@0| alloc@0 0) alloc@0 in_args_2)))
+ (let ((?x11814 (select ?x15962 alloc@0)))
+ (let ((?x32683 (store |H\|interpreter.argsParser\|parsedArgsCount\|Int@0| alloc@0 0)))
+ (let ((?x41067 (select ?x32683 alloc@0)))
+ (let ((?x5150 (store ?x32683 alloc@0 (+ ?x41067 1))))
+ (let ((?x41653 (select ?x5150 alloc@0)))
+ (and (>= ?x41653 0) (< ?x41653 ?x11814)))))))))
 (assert
- (let ((?x1180 (select |A\|interface{String() string; value()}\|\|Any@0| in_args)))
- (let ((?x6173 (select ?x1180 1)))
- ((_ is mk179 ) ?x6173))))
+ (let ((?x3582 (select |A\|interface{String() string; value()}\|\|Any@0| in_args)))
+ (let ((?x20741 (select ?x3582 1)))
+ ((_ is mk179 ) ?x20741))))
 (assert
  (not (= alloc@0 (- 2))))
 (assert
@@ -273,33 +273,33 @@
 (assert
  (not (= alloc@0 0)))
 (assert
- (let ((?x4783 (store (store |H\|interpreter.argsParser\|args#len\|Int@0| alloc@0 0) alloc@0 in_args_2)))
- (let ((?x1040 (select ?x4783 alloc@0)))
- (let ((?x13517 (store (store |H\|interpreter.argsParser\|args#arr\|Int@0| alloc@0 0) alloc@0 in_args)))
- (let ((?x3734 (select ?x13517 alloc@0)))
- (=> (= ?x3734 0) (= ?x1040 0)))))))
+ (let ((?x15962 (store (store |H\|interpreter.argsParser\|args#len\|Int@0| alloc@0 0) alloc@0 in_args_2)))
+ (let ((?x11814 (select ?x15962 alloc@0)))
+ (let ((?x80603 (store (store |H\|interpreter.argsParser\|args#arr\|Int@0| alloc@0 0) alloc@0 in_args)))
+ (let ((?x16366 (select ?x80603 alloc@0)))
+ (=> (= ?x16366 0) (= ?x11814 0)))))))
 (assert
- (let ((?x231 (+ alloc@0 1)))
- (let ((?x386 (+ ?x231 1)))
- (let ((?x39422 (+ ?x386 1)))
- (let ((?x13517 (store (store |H\|interpreter.argsParser\|args#arr\|Int@0| alloc@0 0) alloc@0 in_args)))
- (let ((?x3734 (select ?x13517 alloc@0)))
- (let (($x3396 (>= ?x3734 0)))
- (and $x3396 (< ?x3734 ?x39422)))))))))
+ (let ((?x5343 (+ alloc@0 1)))
+ (let ((?x5372 (+ ?x5343 1)))
+ (let ((?x6426 (+ ?x5372 1)))
+ (let ((?x80603 (store (store |H\|interpreter.argsParser\|args#arr\|Int@0| alloc@0 0) alloc@0 in_args)))
+ (let ((?x16366 (select ?x80603 alloc@0)))
+ (let (($x36007 (>= ?x16366 0)))
+ (and $x36007 (< ?x16366 ?x6426)))))))))
 (assert
  (>= 0 0))
 (assert
- (let ((?x4783 (store (store |H\|interpreter.argsParser\|args#len\|Int@0| alloc@0 0) alloc@0 in_args_2)))
- (let ((?x1040 (select ?x4783 alloc@0)))
- (>= ?x1040 0))))
+ (let ((?x15962 (store (store |H\|interpreter.argsParser\|args#len\|Int@0| alloc@0 0) alloc@0 in_args_2)))
+ (let ((?x11814 (select ?x15962 alloc@0)))
+ (>= ?x11814 0))))
 (assert
  (not (= alloc@0 0)))
 (assert
  (not (= alloc@0 0)))
 (assert
- (let (($x1169 (= in_args_2 2)))
- (let (($x3837 (not $x1169)))
- (not $x3837))))
+ (let (($x45459 (= in_args_2 2)))
+ (let (($x61830 (not $x45459)))
+ (not $x61830))))
 (assert
  (not (= alloc@0 0)))
 (assert
@@ -315,50 +315,48 @@
 (assert
  (not (= alloc@0 (- 1))))
 (assert
- (let (($x789 (>= 0 0)))
- (and $x789 (< 0 1))))
+ (let (($x91 (>= 0 0)))
+ (and $x91 (< 0 1))))
 (assert
  (not (= alloc@0 (- 2))))
 (assert
- (let (($x789 (>= 0 0)))
- (and $x789 (<= 0 1) (<= 1 1))))
+ (let (($x91 (>= 0 0)))
+ (and $x91 (<= 0 1) (<= 1 1))))
 (assert
- (let ((?x231 (+ alloc@0 1)))
- (let ((?x386 (+ ?x231 1)))
- (let ((?x39422 (+ ?x386 1)))
- (and (distinct ?x39422 0) true)))))
+ (let ((?x5343 (+ alloc@0 1)))
+ (let ((?x5372 (+ ?x5343 1)))
+ (let ((?x6426 (+ ?x5372 1)))
+ (and (distinct ?x6426 0) true)))))
 (assert
- (let ((?x3490 (select |H\|interpreter.programState\|Store\|Any@0| in_s)))
- (and (distinct ?x3490 nil) true)))
+ (let ((?x8138 (select |H\|interpreter.programState\|Store\|Any@0| in_s)))
+ (and (distinct ?x8138 nil) true)))
 (assert
- (let ((?x231 (+ alloc@0 1)))
- (let ((?x386 (+ ?x231 1)))
- (let ((?x39422 (+ ?x386 1)))
- (let ((?x3857 (+ ?x39422 1)))
- (let ((?x43521 (+ ?x3857 1)))
- (let (($x1266 (>= x_GetAccountsM!9 0)))
- (and $x1266 (< x_GetAccountsM!9 ?x43521)))))))))
+ (let ((?x5343 (+ alloc@0 1)))
+ (let ((?x5372 (+ ?x5343 1)))
+ (let ((?x6426 (+ ?x5372 1)))
+ (let ((?x78363 (+ ?x6426 1)))
+ (let ((?x30021 (+ ?x78363 1)))
+ (let (($x12110 (>= x_GetAccountsM!9 0)))
+ (and $x12110 (< x_GetAccountsM!9 ?x30021)))))))))
 (assert
  (< x_GetAccountsM!9 alloc@0))
 (assert
  (< x_GetAccountsM!9 in_s))
 (assert
- (let (($x1307 (forall ((a!b Str) )(let ((?x3147 (select |MV\|map[string]map[string]string\|\|Int@0| x_GetAccountsM!9)))
- (let ((?x3716 (select ?x3147 a!b)))
- (let ((?x41330 (select |MD\|map[string]map[string]string@0| x_GetAccountsM!9)))
- (let (($x3874 (select ?x41330 a!b)))
- (let (($x3151 (and (distinct x_GetAccountsM!9 0) true)))
- (let (($x839 (and $x3151 $x3874)))
- (let ((?x3232 (ite $x839 ?x3716 0)))
- (=> $x839 (and (>= ?x3232 0) (< ?x3232 in_s)))))))))))
+ (let (($x20735 (forall ((a!b Str) )(! (let ((?x61939 (select |MV\|map[string]map[string]string\|\|Int@0| x_GetAccountsM!9)))
+ (let ((?x60652 (select ?x61939 a!b)))
+ (let ((?x52893 (select |MD\|map[string]map[string]string@0| x_GetAccountsM!9)))
+ (let (($x76626 (select ?x52893 a!b)))
+ (let (($x8100 (and (distinct x_GetAccountsM!9 0) true)))
+ (let (($x26212 (and $x8100 $x76626)))
+ (let ((?x7993 (ite $x26212 ?x60652 0)))
+ (=> $x26212 (and (>= ?x7993 0) (< ?x7993 in_s)))))))))) :qid q_a_b_nopat))
  ))
- (and (and (>= x_GetAccountsM!9 0) (< x_GetAccountsM!9 in_s)) $x1307)))
+ (and (and (>= x_GetAccountsM!9 0) (< x_GetAccountsM!9 in_s)) $x20735)))
 (assert
- (let (($x2870 (= x_GetAccountsM!10 nil)))
- (let (($x3310 (not $x2870)))
- (not $x3310))))
-(assert
- (not (= in_s 0)))
+ (let (($x39052 (= x_GetAccountsM!10 nil)))
+ (let (($x17145 (not $x39052)))
+ (not $x17145))))
 (assert
  (not (= in_s 0)))
 (assert
@@ -366,80 +364,82 @@
 (assert
  (not (= in_s 0)))
 (assert
- (let ((?x231 (+ alloc@0 1)))
- (let ((?x386 (+ ?x231 1)))
- (let ((?x39422 (+ ?x386 1)))
- (let ((?x3857 (+ ?x39422 1)))
- (let ((?x43521 (+ ?x3857 1)))
- (let ((?x3498 (store |H\|interpreter.programState\|CachedAccountsMeta\|Int@0| in_s x_GetAccountsM!9)))
- (let ((?x2691 (select ?x3498 in_s)))
- (and (>= ?x2691 0) (< ?x2691 ?x43521))))))))))
+ (not (= in_s 0)))
+(assert
+ (let ((?x5343 (+ alloc@0 1)))
+ (let ((?x5372 (+ ?x5343 1)))
+ (let ((?x6426 (+ ?x5372 1)))
+ (let ((?x78363 (+ ?x6426 1)))
+ (let ((?x30021 (+ ?x78363 1)))
+ (let ((?x29479 (store |H\|interpreter.programState\|CachedAccountsMeta\|Int@0| in_s x_GetAccountsM!9)))
+ (let ((?x63403 (select ?x29479 in_s)))
+ (and (>= ?x63403 0) (< ?x63403 ?x30021))))))))))
 (assert
  (not (= alloc@0 (- 1))))
 (assert
- (let ((?x231 (+ alloc@0 1)))
- (let ((?x386 (+ ?x231 1)))
- (let ((?x39422 (+ ?x386 1)))
- (let ((?x3857 (+ ?x39422 1)))
- (let ((?x43521 (+ ?x3857 1)))
- (let ((?x3412 (store |H\|interpreter.argsParser\|parsedArgsCount\|Int@0| alloc@0 0)))
- (let ((?x1078 (select ?x3412 alloc@0)))
- (let ((?x3475 (store ?x3412 alloc@0 (+ ?x1078 1))))
- (let ((?x3962 (select ?x3475 alloc@0)))
- (let ((?x13517 (store (store |H\|interpreter.argsParser\|args#arr\|Int@0| alloc@0 0) alloc@0 in_args)))
- (let ((?x3734 (select ?x13517 alloc@0)))
- (let ((?x41588 (select |A\|interface{String() string; value()}\|\|Any@0| ?x3734)))
- (let ((?x3606 (select ?x41588 ?x3962)))
- (let ((?x4343 (store (store |H\|string\|\|Str@0| ?x231 str_0) ?x231 (ite ((_ is mk154 ) (select ?x41588 ?x1078)) (c154_f0 (select ?x41588 ?x1078)) str_0))))
- (let ((?x3662 (store (store ?x4343 ?x386 str_0) ?x386 (ite ((_ is mk179 ) ?x3606) (c179_f0 ?x3606) str_0))))
- (let ((?x3055 (select ?x3662 ?x231)))
- (let ((?x3498 (store |H\|interpreter.programState\|CachedAccountsMeta\|Int@0| in_s x_GetAccountsM!9)))
- (let ((?x2691 (select ?x3498 in_s)))
- (let (($x2755 (and (and (distinct ?x2691 0) true) (select (select |MD\|map[string]map[string]string@0| ?x2691) ?x3055))))
- (let ((?x1272 (ite $x2755 (select (select |MV\|map[string]map[string]string\|\|Int@0| ?x2691) ?x3055) 0)))
- (and (>= ?x1272 0) (< ?x1272 ?x43521)))))))))))))))))))))))
+ (let ((?x5343 (+ alloc@0 1)))
+ (let ((?x5372 (+ ?x5343 1)))
+ (let ((?x6426 (+ ?x5372 1)))
+ (let ((?x78363 (+ ?x6426 1)))
+ (let ((?x30021 (+ ?x78363 1)))
+ (let ((?x32683 (store |H\|interpreter.argsParser\|parsedArgsCount\|Int@0| alloc@0 0)))
+ (let ((?x41067 (select ?x32683 alloc@0)))
+ (let ((?x5150 (store ?x32683 alloc@0 (+ ?x41067 1))))
+ (let ((?x41653 (select ?x5150 alloc@0)))
+ (let ((?x80603 (store (store |H\|interpreter.argsParser\|args#arr\|Int@0| alloc@0 0) alloc@0 in_args)))
+ (let ((?x16366 (select ?x80603 alloc@0)))
+ (let ((?x18533 (select |A\|interface{String() string; value()}\|\|Any@0| ?x16366)))
+ (let ((?x7792 (select ?x18533 ?x41653)))
+ (let ((?x835 (store (store |H\|string\|\|Str@0| ?x5343 str_0) ?x5343 (ite ((_ is mk154 ) (select ?x18533 ?x41067)) (c154_f0 (select ?x18533 ?x41067)) str_0))))
+ (let ((?x61503 (store (store ?x835 ?x5372 str_0) ?x5372 (ite ((_ is mk179 ) ?x7792) (c179_f0 ?x7792) str_0))))
+ (let ((?x68726 (select ?x61503 ?x5343)))
+ (let ((?x29479 (store |H\|interpreter.programState\|CachedAccountsMeta\|Int@0| in_s x_GetAccountsM!9)))
+ (let ((?x63403 (select ?x29479 in_s)))
+ (let (($x12358 (and (and (distinct ?x63403 0) true) (select (select |MD\|map[string]map[string]string@0| ?x63403) ?x68726))))
+ (let ((?x57730 (ite $x12358 (select (select |MV\|map[string]map[string]string\|\|Int@0| ?x63403) ?x68726) 0)))
+ (and (>= ?x57730 0) (< ?x57730 ?x30021)))))))))))))))))))))))
 (assert
- (let ((?x1343 (+ 1 alloc@0)))
- (let ((?x1180 (select |A\|interface{String() string; value()}\|\|Any@0| in_args)))
- (let ((?x6173 (select ?x1180 1)))
- (let (($x4666 ((_ is mk179 ) ?x6173)))
- (let ((?x1069 (ite $x4666 (c179_f0 ?x6173) str_0)))
- (let ((?x3782 (+ 2 alloc@0)))
- (let ((?x34201 (select ?x1180 0)))
- (let ((?x4339 (c154_f0 ?x34201)))
- (let (($x3843 ((_ is mk154 ) ?x34201)))
- (let ((?x4205 (ite $x3843 ?x4339 str_0)))
- (let ((?x2667 (store |H\|string\|\|Str@0| ?x1343 ?x4205)))
- (let ((?x3301 (store ?x2667 ?x3782 ?x1069)))
- (let ((?x41330 (select |MD\|map[string]map[string]string@0| x_GetAccountsM!9)))
- (let (($x3593 (select ?x41330 (select ?x3301 ?x1343))))
- (let (($x4737 (= x_GetAccountsM!9 0)))
- (let (($x4487 (not $x4737)))
- (and $x4487 $x3593))))))))))))))))))
+ (let ((?x16182 (+ 1 alloc@0)))
+ (let ((?x3582 (select |A\|interface{String() string; value()}\|\|Any@0| in_args)))
+ (let ((?x20741 (select ?x3582 1)))
+ (let (($x88211 ((_ is mk179 ) ?x20741)))
+ (let ((?x83887 (ite $x88211 (c179_f0 ?x20741) str_0)))
+ (let ((?x8413 (+ 2 alloc@0)))
+ (let ((?x65638 (select ?x3582 0)))
+ (let ((?x8154 (c154_f0 ?x65638)))
+ (let (($x28171 ((_ is mk154 ) ?x65638)))
+ (let ((?x11511 (ite $x28171 ?x8154 str_0)))
+ (let ((?x6312 (store |H\|string\|\|Str@0| ?x16182 ?x11511)))
+ (let ((?x81028 (store ?x6312 ?x8413 ?x83887)))
+ (let ((?x52893 (select |MD\|map[string]map[string]string@0| x_GetAccountsM!9)))
+ (let (($x78795 (select ?x52893 (select ?x81028 ?x16182))))
+ (let (($x39995 (= x_GetAccountsM!9 0)))
+ (let (($x16933 (not $x39995)))
+ (and $x16933 $x78795))))))))))))))))))
 (assert
  (not (= alloc@0 (- 2))))
 (assert
- (let ((?x231 (+ alloc@0 1)))
-(let ((?x386 (+ ?x231 1)))
-(let ((?x3412 (store |H\|interpreter.argsParser\|parsedArgsCount\|Int@0| alloc@0 0)))
-(let ((?x1078 (select ?x3412 alloc@0)))
-(let ((?x3475 (store ?x3412 alloc@0 (+ ?x1078 1))))
-(let ((?x3962 (select ?x3475 alloc@0)))
-(let ((?x13517 (store (store |H\|interpreter.argsParser\|args#arr\|Int@0| alloc@0 0) alloc@0 in_args)))
-(let ((?x3734 (select ?x13517 alloc@0)))
-(let ((?x41588 (select |A\|interface{String() string; value()}\|\|Any@0| ?x3734)))
-(let ((?x3606 (select ?x41588 ?x3962)))
-(let ((?x4343 (store (store |H\|string\|\|Str@0| ?x231 str_0) ?x231 (ite ((_ is mk154 ) (select ?x41588 ?x1078)) (c154_f0 (select ?x41588 ?x1078)) str_0))))
-(let ((?x3662 (store (store ?x4343 ?x386 str_0) ?x386 (ite ((_ is mk179 ) ?x3606) (c179_f0 ?x3606) str_0))))
-(let ((?x1017 (select ?x3662 ?x386)))
-(let ((?x3055 (select ?x3662 ?x231)))
-(let ((?x3147 (select |MV\|map[string]map[string]string\|\|Int@0| x_GetAccountsM!9)))
-(let ((?x41330 (select |MD\|map[string]map[string]string@0| x_GetAccountsM!9)))
-(let (($x3151 (and (distinct x_GetAccountsM!9 0) true)))
-(let (($x4760 (and $x3151 (select ?x41330 ?x3055))))
-(let ((?x4063 (ite $x4760 (select ?x3147 ?x3055) 0)))
-(let (($x3072 (and (and (distinct ?x4063 0) true) (select (select |MD\|map[string]string@0| ?x4063) ?x1017))))
-(let (($x2046 (= nil nil)))
-(let (($x4383 (=> $x2046 $x3072)))
-(not $x4383))))))))))))))))))))))))
+ (let ((?x5343 (+ alloc@0 1)))
+(let ((?x5372 (+ ?x5343 1)))
+(let ((?x32683 (store |H\|interpreter.argsParser\|parsedArgsCount\|Int@0| alloc@0 0)))
+(let ((?x41067 (select ?x32683 alloc@0)))
+(let ((?x5150 (store ?x32683 alloc@0 (+ ?x41067 1))))
+(let ((?x41653 (select ?x5150 alloc@0)))
+(let ((?x80603 (store (store |H\|interpreter.argsParser\|args#arr\|Int@0| alloc@0 0) alloc@0 in_args)))
+(let ((?x16366 (select ?x80603 alloc@0)))
+(let ((?x18533 (select |A\|interface{String() string; value()}\|\|Any@0| ?x16366)))
+(let ((?x7792 (select ?x18533 ?x41653)))
+(let ((?x835 (store (store |H\|string\|\|Str@0| ?x5343 str_0) ?x5343 (ite ((_ is mk154 ) (select ?x18533 ?x41067)) (c154_f0 (select ?x18533 ?x41067)) str_0))))
+(let ((?x61503 (store (store ?x835 ?x5372 str_0) ?x5372 (ite ((_ is mk179 ) ?x7792) (c179_f0 ?x7792) str_0))))
+(let ((?x3541 (select ?x61503 ?x5372)))
+(let ((?x68726 (select ?x61503 ?x5343)))
+(let ((?x61939 (select |MV\|map[string]map[string]string\|\|Int@0| x_GetAccountsM!9)))
+(let ((?x52893 (select |MD\|map[string]map[string]string@0| x_GetAccountsM!9)))
+(let (($x8100 (and (distinct x_GetAccountsM!9 0) true)))
+(let (($x37849 (and $x8100 (select ?x52893 ?x68726))))
+(let ((?x7657 (ite $x37849 (select ?x61939 ?x68726) 0)))
+(let (($x16689 (and (and (distinct ?x7657 0) true) (select (select |MD\|map[string]string@0| ?x7657) ?x3541))))
+(let (($x16245 (= nil nil)))
+(let (($x12813 (=> $x16245 $x16689)))
+(not $x12813))))))))))))))))))))))))
 (check-sat)
